@@ -81,9 +81,82 @@ CHECKS = {
                 "C decoders are below the model's granularity.",
         "technique": "Coq proof over all interleavings (commutation of disjoint steps) + enforced-schedule correspondence",
     },
+    "C02": {
+        "text": "Attribute coding proved for every st_mode and kind (posix_mode/is_directory/is_symlink decode what _make_file_info "
+                "encodes; 32-bit fit); the writeall walk and the extraction order as functions on finite trees with tree_roundtrip by "
+                "induction on the tree (every wf tree, both path forms, dereference); FILETIME conversion modelled in Flocq binary64, "
+                "bit-exact against CPython, with a full proof that |totimestamp(from_datetime t) - t| <= 5e-6 for 0 <= t <= 4.2e9 "
+                "(tight bound 3.746 us). Harness: generated trees through writeall/extractall, pack/unpack_7zarchive and the CLI, "
+                "lstat/readlink/bytes/mode/mtime compared with the source and with the model.",
+        "note": "Trusted: Coq kernel; Flocq and the real-number axioms of the standard library (sig_forall_dec, sig_not_dec, classic, "
+                "functional_extensionality_dep) for the two float theorems only; Mode.v/Walk.v hand models tied by correspondence. "
+                "Partial: umask, clock, ownership and link mtimes are constants or outside the model.",
+        "technique": "Coq proof (exhaustive finite domain + induction on trees + Flocq rounding-error bound) + tree correspondence",
+    },
+    "C09": {
+        "text": "Selective extraction as a fold over the folder's members with a cursor and the just_check queue (Select.v): "
+                "extract_restrict (delivered = restriction of extractall, same bytes, same order) for every archive, target set and "
+                "recursive flag under the property's prefix condition, by a cursor invariant; absent targets ignored, trailing slash "
+                "immaterial, only parents created. Harness: every subset of member names x recursive x output kind x presentation on "
+                "hand-assembled and py7zr-written archives (17k cases quick, 164k thorough) against the model and extractall.",
+        "note": "Trusted: Coq kernel; Select.v hand model tied by correspondence; decoding abstracted as 'the next size bytes' "
+                "(Decomp.worker_next). Duplicate-name renaming, symlinks and the utime pass are not in this model.",
+        "technique": "Coq proof by cursor invariant + all-subsets correspondence",
+    },
+    "C10": {
+        "text": "Listing interfaces modelled over Assign.v's plans (Listing.v): names identical in getnames/namelist/list/files in stored "
+                "order; listed size and CRC are those the format assigns (via assign_conforms) and equal length/CRC-32 of the extracted "
+                "bytes; directory flag iff extraction creates a directory; getinfo total (with and without trailing slash, KeyError "
+                "otherwise); archiveinfo totals/blocks/solid/method names; needs_password iff AES coder or password supplied. Harness: "
+                "158 archives (py7zr- and reference-written) observed through every listing call and compared with extraction, the "
+                "reference reader and the model.",
+        "note": "Trusted: Coq kernel; Listing.v/Assign.v hand models tied by correspondence; Spec.v. compressed size, header_size and "
+                "timestamps of list() are outside the statement.",
+        "technique": "Coq proof of corollaries of the assignment refinement + listing/extraction correspondence",
+    },
+    "C14": {
+        "text": "The ordered seek/write operations of create and append sessions as a trace over a byte image (Trace.v): for every "
+                "prefix at byte granularity the image either is rejected, or is the final image, or exhibits an explicit CRC-32 "
+                "collision (create: unconditional for headers < 256 bytes); append: the old contents stay unless a collision, and the "
+                "genuinely unsafe window (new data overwriting an encoded header that carries no CRC of its plain text) is proved to "
+                "exist and recorded as a known finding; lost/reordered single writes. Harness: recorded I/O traces of real sessions "
+                "matched against the model's trace, every byte-granular prefix reopened with py7zr (25k images quick).",
+        "note": "Trusted: Coq kernel; Crc32.v (proved model of zlib.crc32); Trace.v hand model tied by trace correspondence. The step "
+                "from 'next header accepted' to 'member list correct' rests on C06/C07/C17.",
+        "technique": "Coq proof over all trace prefixes with explicit CRC-collision disjunct + crash-image enumeration",
+    },
+    "C15": {
+        "text": "Write sessions with injected faults as a state machine (WSession.v): failed calls detected before registration have no "
+                "effect; for every history whose faults are of that kind all successful members are present and intact "
+                "(later_writes_intact, any length); midway failures never yield wrong contents under an injective digest; the "
+                "open-failure, read-failure and symlink-after-data poisonings are proved as refutations (known findings). Harness: "
+                "5.6k (quick) / 142k (thorough) histories of 7 call shapes x fault x later writes x close mode compared state by state.",
+        "note": "Trusted: Coq kernel; WSession.v hand model tied by correspondence; the compressor chain is abstracted as identity on the "
+                "folder content; CRC-32 is not injective (the midway theorem assumes an injective digest).",
+        "technique": "Coq proof on the write-session state machine + fault-history correspondence",
+    },
+    "C16": {
+        "text": "pathlib's PurePosixPath parsing, canonical_path, check_archive_path (as repaired: lexical depth walk), "
+                "_sanitize_archive_arcname and the stored name modelled on code-point lists (Path.v): check_archive_path name = spec_ok "
+                "name for ALL strings; sanitised and stored names are never absolute; accepted names are stored inside. Harness: "
+                "exhaustive names over the property's alphabet up to 4 (quick) / 6 (thorough, 1M names) components + Unicode, model vs "
+                "pathlib/py7zr, then writestr/writef/write/writeall on scratch archives (rejected names leave the archive unchanged).",
+        "note": "Trusted: Coq kernel; Path.v hand model tied by exhaustive correspondence; Linux only. Backslash handling differs between "
+                "the write side and py7zr's own reader (known finding).",
+        "technique": "Coq proof of equality with an independent specification over all strings + exhaustive enumeration",
+    },
+    "C18": {
+        "text": "Events emitted by the main thread and the per-folder workers as a FIFO merge under any schedule (Events.v): for every "
+                "interleaving the reported sequence is well-formed (pre first, post last, one start then one end per processed member "
+                "with its size, updates summing to the decoded bytes, for every clock), close() returns after every event has been "
+                "handled, a second extraction's events go to its own callback; mp=True loses worker events (known finding). Harness: "
+                "queue and callbacks instrumented, schedules enforced at worker puts, scripted clock, blocking handlers.",
+        "note": "Trusted: Coq kernel; Events.v hand model tied by exact comparison of the queue contents with the model's emitted "
+                "sequence per enforced schedule. Wall-clock timing is compared only away from thresholds.",
+        "technique": "Coq proof over all interleavings of a FIFO merge + enforced-schedule correspondence",
+    },
 }
 
 _PENDING = "check not built yet in this session (planned, see DESIGN.md section 5); not a statement that proof is inapplicable"
 NOT_APPLICABLE = {p: _PENDING for p in
-                  ["C01", "C02", "C04", "C05", "C09", "C10", "C11", "C14", "C15",
-                   "C16", "C18", "C19", "C20"]}
+                  ["C01", "C04", "C05", "C11", "C19", "C20"]}
